@@ -297,4 +297,16 @@ theorem rows_proj (file : Bytes) (idx : List (Str × FastaInfo)) (bs w : Int) (r
       rows.foldlM (rowStep w (fun r => gapIter bs r Gen.gapCharacter) (seqIter file idx bs)) (proj log) :=
   foldlM_proj _ _ (fun lg row => streamRow_proj file idx bs w lg row) rows log
 
+/-- a gap chunk is never longer than `buffer_size` (so `bs.toNat < fuel` gives the gap half of the fuel hypothesis) -/
+theorem gapIter_length_le (bs : Int) (row : Row) (gc : List Nat) (c : BytesIO) (hc : c ∈ gapIter bs row gc) :
+    c.data.length ≤ bs.toNat := by
+  cases row with
+  | frag f => simp [gapIter] at hc
+  | gap g =>
+    simp only [gapIter, gapChunkList, List.map_map, List.mem_map, List.mem_range, Function.comp] at hc
+    obtain ⟨i, _, rfl⟩ := hc
+    simp only [List.length_replicate]
+    generalize (i : Int) * bs = x
+    omega
+
 end AgpTpf.ImpStream
